@@ -192,6 +192,14 @@ func Ite8(c bool, a, b byte) byte {
 	return b
 }
 
+// Ite64 selects between two values without forking a path. (intercepted)
+func Ite64(c bool, a, b uint64) uint64 {
+	if c {
+		return a
+	}
+	return b
+}
+
 // Panics runs f and reports whether a Go panic escaped from it (assertion/assumption signals pass through).
 func Panics(f func()) (p bool) {
 	defer func() {
